@@ -1,6 +1,7 @@
 import ErgoVerif.Lemmas.SupLoopSOFO
 import ErgoVerif.Lemmas.SupStep
 import ErgoVerif.Lemmas.Window
+import ErgoVerif.Lemmas.SupTrackOFO2
 /-!
 # C09 (supervisor half) — giving up
 
@@ -117,6 +118,55 @@ theorem C09_gives_up_sofo (sp : SupSpec) (c c2 : Loop SOFO) (ls : List Label) (r
       | cons a t => exact absurd (by rw [hx]; simp [keys]) (hi a.1)
   · intro hrun'
     exact hinv.live hrun' hst.1
+
+/-- the same for one-for-one, over all histories that stay out of the listed regions D26/D27 (`ofoStepSafe`):
+once shutting down with recorded reason `r0` (after giving up: `restartsExceeded`, by `C09_gives_up_ofo`), the reason
+is final, the supervisor terminates only with `r0` and only when no child is left, and it cannot hang -/
+theorem C09_gives_up_ofo_closed (sp : SupSpec) (hv : ValidSpec sp) (c c2 : Loop OFO) (ls0 ls : List Label) (r0 : Reason)
+    (hreach : run ofoStepSafe (ofoBoot sp) ls0 = some c) (hsd : c.m.shutdown = true) (hr0 : c.m.shutdownReason = some r0)
+    (hrun : run ofoStepSafe c ls = some c2) :
+    c2.m.shutdownReason = some r0 ∧
+    (∀ r, c2.status = .terminated r → r = r0 ∧ c2.alive = [] ∧ c2.inflight = []) ∧
+    (c2.status = .running → ∃ p, p ∈ keys c2.kids) ∧
+    c2.status ≠ .panicked ∧ c2.status ≠ .stuck := by
+  have hsafe_step : ∀ (s s' : Loop OFO) (a : Label), ofoStepSafe s a = some s' → ofoStep s a = some s' := by
+    intro s s' a h
+    unfold ofoStepSafe at h
+    split at h
+    · exact h
+    · simp at h
+  have hst : c2.m.shutdown = true ∧ c2.m.shutdownReason = c.m.shutdownReason :=
+    run_inv (Inv := fun x => x.m.shutdown = true ∧ x.m.shutdownReason = c.m.shutdownReason)
+      (fun s a s' hi hs => by
+        have := OFO.step_stable s s' a (hsafe_step s s' a hs) hi.1
+        exact ⟨this.1, this.2.trans hi.2⟩) ⟨hsd, rfl⟩ hrun
+  have ht : OFO.Track c2 :=
+    run_inv (Inv := OFO.Track) (fun s a s' hi hs => OFO.step_track s s' a hi hs) (OFO.boot_track sp hv)
+      (show run ofoStepSafe (ofoBoot sp) (ls0 ++ ls) = some c2 by rw [run_append, hreach]; simpa using hrun)
+  refine ⟨hst.2.trans hr0, ?_, fun hrun' => ht.core.live hrun' hst.1, ht.core.sane.1, ht.core.sane.2⟩
+  intro r hr
+  have ⟨hk, hreason⟩ := ht.core.term r hr
+  have hr' : r = r0 := by
+    have := hreason hst.1
+    rw [hst.2, hr0] at this; simpa using this.symm
+  have ha : ∀ p, p ∉ keys c2.alive := fun p hp => hk p ((ht.glue.kids_iff p).mpr (Or.inl hp))
+  have hi : ∀ p, p ∉ keys c2.inflight := fun p hp => hk p ((ht.glue.kids_iff p).mpr (Or.inr hp))
+  refine ⟨hr', ?_, ?_⟩
+  · cases hx : c2.alive with
+    | nil => rfl
+    | cons a t => exact absurd (by rw [hx]; simp [keys]) (ha a.1)
+  · cases hx : c2.inflight with
+    | nil => rfl
+    | cons a t => exact absurd (by rw [hx]; simp [keys]) (hi a.1)
+
+/-- non-vacuity for one-for-one: intensity 1, the second failure of c1 within the period; c2 is told to stop, dies,
+and the supervisor terminates with restartsExceeded -/
+example :
+    let sp : SupSpec := { children := [(1, false), (2, false)], restart := { strategy := .permanent, intensity := 1, periodMs := 5000 } }
+    ∃ c, run ofoStepSafe (ofoBoot sp)
+        [.die 1 .kill, .deliver 1 1000 [], .die 3 .kill, .deliver 3 1100 [], .die 2 .restartsExceeded, .deliver 2 1200 []] = some c
+      ∧ c.status = .terminated .restartsExceeded := by
+  exact ⟨_, rfl, by decide⟩
 
 /-- non-vacuity: a reachable configuration that is shutting down after giving up (intensity 1: the second
 failure of the only spec within the period) and then terminates with restartsExceeded -/
